@@ -3,6 +3,7 @@ C04, C10, C13, C14). Integer arithmetic here is used only to *choose inputs* (e.
 positions or compatible metrics); every verdict is TLC's.
 """
 import math
+from fractions import Fraction
 
 from harness.c11 import decode
 from harness.project import to_grid
@@ -279,7 +280,8 @@ def project_rows(d, n, gram, u, with_cell=False, max_cc=60, tol=1e-6):
             # "in [0,1)"; the grid point is taken modulo the lattice (0.9999999999997 is the site 0, not the site N)
             xr = float(x) - cell[c]
             k, o = to_grid(xr, n, tol)
-            fl.append(int(math.floor(xr)) if math.isfinite(xr) else 99)
+            # exactly: (a + cell) - cell need not be a in floating point (0.9999999999999999 - 1 + 1 = 1.0)
+            fl.append(int(math.floor(Fraction(float(x)) - cell[c])) if math.isfinite(xr) else 99)
             p.append(k % n + n * cell[c])
             pr.append(k + n * cell[c])           # the grid point the reported float actually is (for cart_pos)
             off |= o
